@@ -16,7 +16,14 @@ PROP = dict(
           "growing requests (Builder/Compiler embed() of 135000 -> 270000 -> 530000 bytes = node-arena requests larger than the kept block, "
           "long named labels, a growing ConstPool, W5 alloc_oneshot of 3x/5x/7x the block size); W5 also has history STEPS (soft reset, "
           "alloc_oneshot/alloc_oneshot_zeroed/dup/ArenaString of 1 KiB-400 KB incl. 'twice the largest so far', ConstPool/ArenaVector/ArenaHash "
-          "growth bursts). Fault plans: the k-th arena "
+          "growth bursts). CONTINUE WINDOWS (W1-W3; cfg[7] bit 1): a stream of instructions most of which carry one-shot emitter state "
+          "(x86: lock, rep/repne, short/long form, {k1}..{k7}, {z}, {sae}, {er} where valid for the instruction, inline comments; through the "
+          "Compiler a virtual {k} register; AArch64: inline comments), with 'burn' steps that exhaust the current node-arena block / section "
+          "buffer in front of an instruction; an instruction call that returns kOutOfMemory is SURVIVED (caller continues, as an application "
+          "with a logging error handler does), every other call still stops at its first error; every arena and heap position inside the "
+          "window is enumerated, plus periodic plans (requests lo+i, lo+i+p, ... fail; p = 2,3,4,5,7) that fail many calls of one run. Judged: "
+          "emitter state clean right after every failed call, output (bytes + node list with options/extra register/operands/comments) == "
+          "never-faulted run of the program minus exactly the failed calls, no later error without a new fault. Fault plans: the k-th arena "
           "request (hook H1), the k-th malloc/realloc/calloc, the k-th mmap/mprotect/ftruncate/memfd_create/shm_open (linker --wrap) - "
           "enumerated for EVERY k of fixed instantiations (for the fixed histories: every heap k of the whole history, every arena k of the "
           "post-reset phase, 'every request after the soft reset fails'), plus 'every request from k on', 'every request issued by one function' and "
@@ -24,7 +31,8 @@ PROP = dict(
           "an API call return an error; distinct = distinct case text"),
     assumptions=["ASan+UBSan build with ASMJIT_ASSERT active; -DASMJIT_VERIF arena hook H1 (add-only) is the only change to the library",
                  "heap / virtual-memory faults are injected only into calls made from AsmJit's own objects (linker --wrap); libc/libstdc++ internals never fail",
-                 "every AsmJit return value is checked and the workload stops at the first error (a 'continue after the error' mode exists for W1/W5 where every later call validates its arguments)",
+                 "every AsmJit return value is checked and the workload stops at the first error (a 'continue after every error' mode exists for W1/W5 where every later call validates its arguments; the continue window of W1-W3 survives only kOutOfMemory of its instruction calls)",
+                 "an inline comment whose copy cannot be allocated is dropped by BaseBuilder::_emit while the call returns kOk: treated as a lost annotation (counted, modelled), not as wrong code",
                  "process-wide one-time probes of virtmem.cpp (hardened runtime, memfd/shm strategy) are warmed up before faults are armed",
                  "a faulted run that reports success must produce byte-identical output; constant-pool layout in W5 is judged by content (a failed gap record legitimately changes the layout)",
                  "arena integrity is read from the public members Arena::_first_block/_dynamic_blocks: every listed block must be a live block obtained through the wrapped malloc (checked after the faulted run and after the re-run, before anything is destroyed)",
